@@ -91,6 +91,22 @@ def pack_problem(Q, b, c, g, gw, x0, L0, cplx, flavour="crafted"):
     }
 
 
+def scaled_case(case, k):
+    """the same problem with the loss multiplied by 2^k (Q, b, c), L0 by 2^k and the weight of g by 2^k: exact in
+    binary arithmetic, every iterate is unchanged and every L, remembered ratio, f-value is multiplied by 2^k
+    (T_k of the robust search by 2^-k) — the policies must be scale-equivariant, no L is too small or too large"""
+    f = float(2.0 ** k)
+    c = dict(case)
+    c["Q"] = (np.asarray(case["Q"], dtype=np.float64) * f).tolist()
+    c["b"] = (np.asarray(case["b"], dtype=np.float64) * f).tolist()
+    c["c"] = float(case["c"] * f)
+    c["L0"] = float(case["L0"] * f)
+    if case["g"] in ("l1", "sql2"):
+        c["gw"] = float(case["gw"] * f)
+    c["scale_k"] = int(k) + int(case.get("scale_k", 0))
+    return c
+
+
 def gen_policy(rng, kind=None):
     kinds = ["base", "bb", "abb", "ls", "rls"]
     k = kind or kinds[int(rng.integers(0, 5))]
@@ -400,6 +416,19 @@ def np_problem(case):
         return v
 
     return f, grad, prox
+
+
+def np_magnitude(case):
+    """size of the terms of f(x) (for tolerances relative to the data, f-values may cancel)"""
+    Qa = np.abs(np.asarray(case["Q"], dtype=np.float64))
+    ba = np.abs(np.asarray(case["b"], dtype=np.float64))
+    ca = abs(case["c"])
+
+    def fmag(x):
+        xa = np.abs(x)
+        return float(0.5 * xa @ (Qa @ xa) + ba @ xa + ca)
+
+    return fmag
 
 
 def finite_pos(L):
